@@ -122,7 +122,8 @@ def main():
                     f.write(bytes([k & 1 if "%" not in l else 1]) + l.encode())
     dump_stats()
     argv = [sys.argv[0], corpus, "-runs=%d" % runs, "-seed=%d" % (seed or 1), "-max_len=%d" % {"dis": 16, "toks": 48, "text": 65}[target],
-            "-timeout=120", "-rss_limit_mb=6000", "-print_final_stats=1", "-verbosity=0"]
+            "-timeout=120", "-rss_limit_mb=6000", "-print_final_stats=1", "-verbosity=0", "-report_slow_units=1000000",
+            "-artifact_prefix=%s" % os.path.join(os.path.dirname(os.path.abspath(corpus)), "artifact-")]
     atheris.Setup(argv, test_one)
     atheris.Fuzz()
 
